@@ -689,7 +689,10 @@ func (g *Gen) oblige(st *State, kind string, pos token.Pos, src string, goal Ter
 	if g.muteObl > 0 {
 		return
 	}
-	if g.topC != nil && g.topC.Claims != nil && !g.topC.Claims[kind] {
+	autoInv := (kind == "inv-init" || kind == "inv-keep") && strings.HasSuffix(src, "(auto)")
+	if g.topC != nil && g.topC.Claims != nil && !g.topC.Claims[kind] && !autoInv {
+		// (inferred invariants are assumed at the loop head: they are always obligations, whatever the contract
+		// claims - an unclaimed, unproved candidate would be an assumption nobody checked)
 		g.notes["obligation kind not claimed for "+shortKey(g.topC.Key)+": "+kind] = true
 		return
 	}
